@@ -1029,6 +1029,45 @@ func (r *awsChunkReadCloser) Close() error {
 	return nil
 }
 
+// decodeUnauthenticatedAwsChunkedBody installs the aws-chunked decoder for
+// requests that do not pass through SigV4 verification (authentication
+// disabled, anonymous requests). Chunk signatures cannot be verified without a
+// signing key and are skipped; a declared trailer checksum is still validated.
+func decodeUnauthenticatedAwsChunkedBody(r *http.Request) {
+	contentEncodingHeader := r.Header.Get("Content-Encoding")
+	if !hasAwsChunkedContentEncoding(contentEncodingHeader) {
+		return
+	}
+	contentSHA256 := r.Header.Get(contentSHA256Header)
+	trailingHeader := false
+	switch contentSHA256 {
+	case contentSHA256StreamingUnsignedPayload, contentSHA256StreamingPayload, contentSHA256StreamingECDSAPayload:
+	case contentSHA256StreamingUnsignedPayloadTrailing, contentSHA256StreamingPayloadTrailing, contentSHA256StreamingECDSAPayloadTrailing:
+		trailingHeader = true
+	default:
+		return
+	}
+	contentEncodingHeader = stripAwsChunkedContentEncoding(contentEncodingHeader)
+	if contentEncodingHeader != "" {
+		r.Header.Set("Content-Encoding", contentEncodingHeader)
+	} else {
+		r.Header.Del("Content-Encoding")
+	}
+	r.Header.Set("Content-Length", r.Header.Get("x-amz-decoded-content-length"))
+	r.Header.Del("x-amz-decoded-content-length")
+	trailerChecksumName := strings.ToLower(strings.TrimSpace(r.Header.Get(trailerHeader)))
+	r.Body = newAwsChunkReadCloser(r.Context(), r.Body, "", "", "", signatureVerifier{algorithm: signatureAlgorithmV4}, trailingHeader, false, true, trailerChecksumName)
+}
+
+// MakeAwsChunkedDecodingMiddleware decodes aws-chunked uploads when the
+// signature middleware is not installed (authentication disabled).
+func MakeAwsChunkedDecodingMiddleware(next http.Handler) http.Handler {
+	return http.HandlerFunc(func(w http.ResponseWriter, r *http.Request) {
+		decodeUnauthenticatedAwsChunkedBody(r)
+		next.ServeHTTP(w, r)
+	})
+}
+
 type Credentials struct {
 	AccessKeyId     string
 	SecretAccessKey string
@@ -1071,6 +1110,7 @@ func MakeSignatureMiddleware(validCredentials []Credentials, region string, next
 			ctx := context.WithValue(r.Context(), IsAuthenticatedContextKey{}, false)
 			ctx = context.WithValue(ctx, AuthTypeContextKey{}, authTypeForRequest(r))
 			r = r.Clone(ctx)
+			decodeUnauthenticatedAwsChunkedBody(r)
 			next.ServeHTTP(w, r)
 			return
 		}
